@@ -9,7 +9,7 @@
 (*                     cfg \in {"none","on","off","onoff","offon"} (#[cfg]    *)
 (*                         gates -- one, or two of which one is false -- and  *)
 (*                         whether the variant is compiled in this build),    *)
-(*                     form \in {"lit","hex","bin","oct","under",           *)
+(*                     form \in {"lit","hex","bin","oct","under","suf",           *)
 (*                               "missing","expr"} ]) ]                     *)
 (***************************************************************************)
 EXTENDS Naturals, Sequences, FiniteSets
@@ -25,7 +25,7 @@ Gated(v)  == v.cfg # "none"
 Active(e) == {k \in 1..Len(e.variants) : e.variants[k].cfg \in {"none", "on"}}
 
 (* an integer literal in any spelling (decimal, 0x.., 0b.., 0o.., with underscores) is a literal discriminant *)
-LitForms == {"lit", "hex", "bin", "oct", "under"}
+LitForms == {"lit", "hex", "bin", "oct", "under", "suf"}     \* "suf": a literal suffixed with the storage type (18u8) under the matching #[repr]
 (* C10 *)
 EnumValid(e) ==
   /\ e.n \in 1..64
